@@ -180,7 +180,7 @@ theorem init_rename : rnTab ρ init = init := by
   have e : rnTab ρ empty = empty := rfl
   rw [e]
   congr 1
-  simp only [List.map_cons, List.map_append, List.map_map, List.map_nil, rnOp, fix_U]
+  simp only [List.map_cons, List.map_append, List.map_map, List.map_nil, rnOp, Gen.builtinGate, fix_U]
   congr 2
   apply List.map_congr_left
   intro n hn
